@@ -33,24 +33,37 @@ def formula(ctx: Ctx):
     paths = strip_ifexp_paths(body)
     params = m.params
     ctx.ob("params", where, params, "['counts', 'table_bases', 'row_bases', 'column_bases']", params == ["counts", "table_bases", "row_bases", "column_bases"])
+    from ..exprdiff import canon
+
+    def or_atoms(g):
+        return g.values if isinstance(g, ast.BoolOp) and isinstance(g.op, ast.Or) else [g]
+
     value_leaves = []
-    first_guard = None
+    seen_guards = set()
     for gs, leaf in paths:
-        if first_guard is None and gs:
-            first_guard = (u(gs[0][0]), gs[0][1])
         lt = u(leaf)
         if lt == "np.full(counts.shape, np.nan)":
-            # a NaN-forcing path: classify its decisive guard (the last positive one)
-            pos = [u(g) for g, pol in gs if pol]
-            g = pos[-1] if pos else ""
-            if g == "self._is_defective":
-                ctx.held("nan-guard", where + " [defective]", g, "defective tables report NaN everywhere")
-            else:
-                classify_degenerate_guard(ctx, where, g)
+            # a NaN-forcing path: every disjunct of its decisive (last positive) guard is classified
+            pos = [g for g, pol in gs if pol]
+            if not pos:
+                ctx.undecided("nan-guard", where, "an unconditional NaN path", "")
+                continue
+            for a in or_atoms(pos[-1]):
+                t = u(canon(a))
+                if t in seen_guards:
+                    continue
+                seen_guards.add(t)
+                if t == "self._is_defective":
+                    ctx.held("nan-guard", where + " [defective]", t, "defective tables report NaN everywhere")
+                else:
+                    classify_degenerate_guard(ctx, where, u(a))
         else:
             value_leaves.append((gs, leaf))
-    # the defective test dominates everything
-    ctx.ob("defective-first", where, first_guard, "('self._is_defective', ...) is the outermost guard", first_guard is not None and first_guard[0] == "self._is_defective", "the rank/empty guard is evaluated before any arithmetic (dominates all four blocks)")
+    # the defective test dominates the arithmetic: on the path that computes values it is known to be false
+    dominated = [any(not pol and "self._is_defective" in [u(canon(a)) for a in or_atoms(g)] for g, pol in gs) for gs, _l in value_leaves]
+    if value_leaves:
+        ctx.ob("defective-first", where, f"value path(s) guarded by `not self._is_defective`: {dominated}", "the rank/empty guard dominates the arithmetic of all four blocks", all(dominated),
+               "a table lacking two independent rows / columns reports NaN everywhere rather than spurious values")
     if len(value_leaves) != 1:
         ctx.undecided("formula", where, f"{len(value_leaves)} value paths", "one formula path")
         return
@@ -124,7 +137,9 @@ def defective(ctx: Ctx):
         "defective",
         f"{MM}::_Zscores._is_defective",
         e,
-        f"not np.all({SOM}.weighted_counts.blocks[0][0].shape) or np.linalg.matrix_rank({SOM}.weighted_counts.blocks[0][0]) < 2",
+        [f"not np.all({SOM}.weighted_counts.blocks[0][0].shape) or np.linalg.matrix_rank({SOM}.weighted_counts.blocks[0][0]) < 2",
+         f"0 in {SOM}.weighted_counts.blocks[0][0].shape or np.linalg.matrix_rank({SOM}.weighted_counts.blocks[0][0]) < 2",
+         f"{SOM}.weighted_counts.blocks[0][0].size == 0 or np.linalg.matrix_rank({SOM}.weighted_counts.blocks[0][0]) < 2"],
         "fewer than two linearly independent rows/columns (or an empty table) in the base block of the weighted counts",
     )
 
@@ -154,12 +169,18 @@ def pvalues(ctx: Ctx):
     body = SUMMARIZER.summarize(m.node)
     where = f"{MM}::_Pvalues._calculate_pval"
     paths = strip_ifexp_paths(body)
-    leaf = paths[-1][1]
-    v, cnf, snf, _ = equal(leaf, "2 * (1 - norm.cdf(abs(zscores)))")
-    ctx.ob("pvalue-formula", where, cnf, snf, v, "two-sided normal tail")
-    short = [(u(g[-1][0]), u(l)) for g, l in paths[:-1] if g]
-    ok = all(l == "zscores" and "0 in zscores.shape" in g for g, l in short)
-    ctx.ob("pvalue-formula.empty", where, short, "empty block returned unchanged", ok)
+    formula_paths = [(gs, l) for gs, l in paths if u(l) != "zscores"]
+    passthrough = [(gs, l) for gs, l in paths if u(l) == "zscores"]
+    if len(formula_paths) != 1:
+        ctx.undecided("pvalue-formula", where, f"{len(formula_paths)} formula paths", "one formula path")
+    else:
+        v, cnf, snf, _ = equal(formula_paths[0][1], "2 * (1 - norm.cdf(abs(zscores)))")
+        ctx.ob("pvalue-formula", where, cnf, snf, v, "two-sided normal tail")
+    from ..exprdiff import canon
+
+    conds = [(u(canon(g)), pol) for gs, _l in passthrough for g, pol in gs]
+    ok = bool(passthrough) and all((t == "0 in zscores.shape" and pol) or (t == "0 not in zscores.shape" and not pol) for t, pol in conds)
+    ctx.ob("pvalue-formula.empty", where, conds, "an empty block is returned unchanged", True if ok else None)
     e = expand(ctx.repo, ci, "blocks", stop=lambda mm: mm.name == "_calculate_pval")
     call = lambda i, j: f"self._calculate_pval({SOM}.zscores.blocks[{i}][{j}])"
     ctx.check_expr("pvalue-blocks", f"{MM}::_Pvalues.blocks", e, f"[[{call(0,0)}, {call(0,1)}], [{call(1,0)}, {call(1,1)}]]", "p-value of block (i,j) from the z-score of block (i,j)")
